@@ -200,6 +200,11 @@ def run_history(ctx, rng, zname, factory, steps):
     pol_name, pol_lib, P = POLICIES[0]
     pool = [GR.build(GZ.norm_val(GR.gen(rng, t, mz.origin, relative_ok=False, plain_names=True), mz.origin, relativize)) for t in ("A", "A", "TXT", "MX", "A", "TXT")]
     owners = [dns.name.Name((GN.simple_label(rng),) + tuple(mz.origin)) for _ in range(4)]
+    if btree:
+        # names beneath two of the owners, and NS records in the pool: cuts come and go above existing names, which makes the
+        # B-tree zone re-flag (copy) nodes the transaction did not otherwise write
+        owners += [dns.name.Name((b"below",) + o.labels) for o in owners[:2]] + [dns.name.Name((b"deep", b"below") + owners[0].labels)]
+        pool += [dns.rdata.from_text("IN", "NS", "ns1.elsewhere."), dns.rdata.from_text("IN", "NS", "ns2.elsewhere."), dns.rdata.from_text("IN", "NS", "ns1.elsewhere.")]
 
     def prune():
         k = min(i for _, i, _ in R) if R else V[-1]
